@@ -103,7 +103,7 @@ def read_schema() -> Dict[str, Any]:
     c04.setup_impl()
     Base = c04.interface().Base
     parent, ncols, fields, selfref, tables, assoc = {}, {}, {}, set(), {}, {}
-    todo = [cn for cn in c04.SCAL if cn not in c04.ALT.values()]
+    todo = [cn for cn in c04.SCAL if cn not in c04.ALT.values() and not cn.startswith("_")]
     seen = set()
     for cn in todo:
         dao = get_dao_class(c04.class_of(cn))
@@ -346,10 +346,19 @@ def gen_model(rng: core.Rng, idx: int) -> Dict[str, Any]:
     names = [f"G{idx}c{i}" for i in range(ncls)]
     base: Dict[str, Any] = {}
     depth: Dict[str, int] = {}
+    # every other model is forced to contain `names[0] <- (unmapped intermediate) <- names[1]` with names[0] having no other
+    # direct mapped subclass: the mapped base then learns about its child only through WrappedTable.parent_table's MRO walk
+    forced = idx % 2 == 0
+    umid: Dict[str, Any] = {}
     for i, n in enumerate(names):
-        cands = [m for m in names[:i] if depth[m] < 2]
+        cands = [m for m in names[(1 if forced and i >= 2 else 0):i] if depth[m] < 2]
         base[n] = rng.choice(cands) if cands and rng.chance(0.45) else None
+        if forced and i == 1:
+            base[n] = names[0]
         depth[n] = 0 if base[n] is None else depth[base[n]] + 1
+        if base[n] is not None and ((forced and i == 1) or rng.chance(0.3)):
+            # an UNMAPPED class between n and its mapped base (not handed to ORMatic); may carry a column of its own
+            umid[n] = {"name": f"U{idx}c{i}", "fields": [[f"u{i}", "scalar", "int"]] if rng.chance(0.5) else []}
     own: Dict[str, List[Tuple[str, str, str]]] = {}
     required: List[str] = []
     falsy: Dict[str, Any] = {}
@@ -377,7 +386,7 @@ def gen_model(rng: core.Rng, idx: int) -> Dict[str, Any]:
                 falsy[n] = ["len", rng.choice(lens)]
             else:
                 falsy[n] = ["bool", rng.choice(bools)]
-    return {"idx": idx, "names": names, "base": base, "own": own, "required": required, "falsy": falsy}
+    return {"idx": idx, "names": names, "base": base, "own": own, "required": required, "falsy": falsy, "umid": umid}
 
 
 def model_source(md) -> str:
@@ -385,8 +394,19 @@ def model_source(md) -> str:
             "List[str]": "field(default_factory=list)"}
     out = ["from __future__ import annotations", "from dataclasses import dataclass, field", "from typing import List, Optional", "", ""]
     for n in md["names"]:
+        parent = md["base"][n]
+        u = md.get("umid", {}).get(n)
+        if u:
+            out.append("@dataclass(eq=False)")
+            out.append(f"class {u['name']}({parent}):        # NOT mapped: never handed to ORMatic")
+            for f, _k, t in u["fields"]:
+                out.append(f"    {f}: {t} = {dflt[t]}")
+            if not u["fields"]:
+                out.append("    pass")
+            out += ["", ""]
+            parent = u["name"]
         out.append("@dataclass(eq=False)")
-        out.append(f"class {n}({md['base'][n]}):" if md["base"][n] else f"class {n}:")
+        out.append(f"class {n}({parent}):" if parent else f"class {n}:")
         for f, kind, t in md["own"][n]:
             if kind == "scalar":
                 out.append(f"    {f}: {t} = {dflt[t]}")
@@ -416,7 +436,9 @@ def install_model(md, workdir) -> None:
     sys.path.insert(0, str(workdir))
     mod = importlib.import_module(modname)
     classes = [getattr(mod, n) for n in md["names"]]
-    o = ORMatic(ClassDiagram(classes))
+    # class order as test/conftest.py builds its diagram (reverse name order); with an unmapped intermediate class there is no
+    # inheritance edge and the emission order of the generated module follows the order given here (name order -> NameError at import)
+    o = ORMatic(ClassDiagram(sorted(classes, key=lambda c: c.__name__, reverse=True)))
     o.make_all_tables()
     with open(workdir / f"{modname}_dao.py", "w") as f:
         o.to_sqlalchemy_file(f)
@@ -429,8 +451,12 @@ def install_model(md, workdir) -> None:
     subs_of = {n: [m for m in names if n in mro(m)] for n in names}
     c04.MODEL_MODULE, c04.INTERFACE_MODULE = modname, modname + "_dao"
     c04.ALT, c04.ALTBASE, c04.SUB = {}, set(), subs_of
-    c04.SCAL = {n: [f for c in mro(n) for f, k, _t in own[c] if k == "scalar"] for n in names}
-    c04.SCAL_TYPES = {n: {f: t for c in mro(n) for f, k, t in own[c] if k == "scalar"} for n in names}
+    umid = md.get("umid", {})
+
+    def decl(c):          # fields declared between c's mapped base and c (unmapped intermediate first), dataclass order
+        return [tuple(x) for x in umid.get(c, {}).get("fields", [])] + [tuple(x) for x in own[c]]
+    c04.SCAL = {n: [f for c in mro(n) for f, k, _t in decl(c) if k == "scalar"] for n in names}
+    c04.SCAL_TYPES = {n: {f: t for c in mro(n) for f, k, t in decl(c) if k == "scalar"} for n in names}
     info = {n: {f: (k, t) for c in mro(n) for f, k, t in own[c] if k != "scalar"} for n in names}
     c04.REFS = {}
     for n in names:
@@ -439,7 +465,8 @@ def install_model(md, workdir) -> None:
         if missing:
             raise RuntimeError(f"{n}: no relationship generated for reference fields {sorted(missing)}")
         c04.REFS[n] = [(k, info[n][k][0], info[n][k][1], True) for k in keys if k in info[n]]
-    c04.CLASS_ID = {n: i + 1 for i, n in enumerate(names)}
+    c04.SCAL["_Holder"], c04.REFS["_Holder"] = [], [("items", "many", "_Holder", False)]
+    c04.CLASS_ID = {n: i + 1 for i, n in enumerate(names + ["_Holder"])}
     c04.ROOT_KINDS = list(names)
     # truthiness is inherited: a class is falsy-capable through the nearest definition on its MRO
     c04.FALSY_FIELDS = {}
@@ -460,7 +487,8 @@ def prepare_case04(d: dict, org: str, model_ok: bool) -> Dict[str, Any]:
          "in_f": not ft["alt_objs"] and not ft["altbase_objs"], "alts": c04.alts_term(), "root_class": d["objs"][d["root"]]["c"]}
     if "exc" not in res:
         args = f"{c04.heap_term(heap)} {r}%nat {c04.heap_term(res['heap'])} {res['root']}%nat"
-        m["expr"] = f"case_code {c04.alts_term()} {args}" if model_ok else f"case_code_spec {args}"
+        fn = c04.code_fns(d, model_ok)[0]
+        m["expr"] = f"{fn} {c04.alts_term()} {args}" if model_ok else f"{fn} {args}"
     return m
 
 
@@ -532,6 +560,8 @@ def _worker_main(argv) -> int:
     for i, (dsc, org) in enumerate(todo):
         if dsc is None:
             dsc = c04.gen_graph(rng.fork(i + 1), 10) if prop == "C04" else gen_graph(rng.fork(i + 1), 10)
+            if prop == "C04" and i % 4 == 3:     # several roots converted one by one with shared states
+                dsc = c04.make_multi(rng.fork(5000 + i), dsc)
         m = one(dsc, org)
         if failing(m) and shrunk < 3 and not replay:
             shrunk += 1
@@ -675,6 +705,8 @@ def run(tier: str, seed: int, replay=None) -> int:
         "lazy loading) and SQLite; type coercion of Float/String/JSON/Enum/DateTime/custom TypeDecorator columns",
         "hand-written models Orm/ObjGraphWalk.v (to_dao/from_dao) and Orm/Rows.v (schema, flush, load); the schema parameter "
         "(parent tables, own data columns, relationship order, ONETOMANY single references) is read from the real mappers on every run",
+        "source pins pins/ormrt.json (38 methods of dao.py, alternative_mappings.py, custom_types.py, wrapped_table.py, utils.create_engine that the hand "
+        "models mirror; a changed method reopens the correspondence obligation)",
         "harness/c04.py (class table, builder, heap dump, scalar interning with numbers by value, python bisimulation) and harness/c05.py "
         "(incl. the generator of class models and the admissible-outcome matcher for the inexact class K_selfref)",
         "user code of the dataset (alternative mappings, ConceptType decorator, __post_init__) is run, not modelled",
@@ -690,6 +722,8 @@ def run(tier: str, seed: int, replay=None) -> int:
     ok_spec, log = core.coq_make(["Base/Sx.vo", "Orm/IsoCanon.vo"])
     rep.oblige("build:spec", ok_spec, "" if ok_spec else core.first_error(log))
     model_ok = core.standard_proof_steps(rep, PROP, ["Props/C05.vo"])
+    from translator import pins
+    pins.oblige(rep, str(core.REPO), "ormrt", "Orm/ObjGraphWalk.v + ToDao.v + FromDao.v + Rows.v (hand models of to_dao/from_dao and of the relational layer)")
     try:
         rep.oblige("regen:dataset-layer", True, regen_interface())
     except Exception as e:  # noqa
